@@ -203,6 +203,9 @@ class Models:
 
     def delitem(self, ex, cont, key, lineno):
         st = ex.st
+        r = self._plug("delitem", ex, cont, key, lineno)  # opt-in plugin objects (plug_c05more: the abstract HDF5 cache file)
+        if r is not NotImplemented:
+            return
         if isinstance(cont, Ref):
             o = st.heap[cont.id]
             if isinstance(o, DictObj):
